@@ -8,4 +8,417 @@ open MdsVerif.Model.Edit MdsVerif.Model.Mdiff MdsVerif.Spec.Mdiff MdsVerif.Spec
 
 variable {α : Type}
 
+/-! ## spans -/
+
+theorem span_self (l : List α) (s : Nat) : span l s s = [] := by simp [span]
+
+theorem span_append (l : List α) {a b c : Nat} (h1 : 1 ≤ a) (h2 : a ≤ b) (h3 : b ≤ c) :
+    span l a b ++ span l b c = span l a c := by
+  unfold span
+  have e1 : c - a = (b - a) + (c - b) := by omega
+  rw [e1, List.take_add, List.drop_drop]
+  have e2 : a - 1 + (b - a) = b - 1 := by omega
+  rw [e2]
+
+theorem span_drop (l : List α) {a b : Nat} (h1 : 1 ≤ a) (h2 : a ≤ b) :
+    span l a b ++ l.drop (b - 1) = l.drop (a - 1) := by
+  unfold span
+  have e2 : b - 1 = (a - 1) + (b - a) := by omega
+  rw [e2, ← List.drop_drop, List.take_append_drop]
+
+theorem length_span (l : List α) {a b : Nat} (h1 : 1 ≤ a) (h3 : b ≤ l.length + 1) :
+    (span l a b).length = b - a := by
+  unfold span
+  rw [List.length_take, List.length_drop]; omega
+
+theorem span_to_end (l : List α) (a : Nat) : span l a (l.length + 1) = l.drop (a - 1) := by
+  unfold span
+  apply List.take_of_length_le
+  rw [List.length_drop]; omega
+
+theorem span_of_isSpan {l : List α} {i : Nat} {X : List α} (h : EditScript.IsSpan l i X) :
+    span l (i + 1) (i + 1 + X.length) = X := by
+  obtain ⟨t, ht⟩ := h
+  unfold span
+  have : i + 1 + X.length - (i + 1) = X.length := by omega
+  rw [this, Nat.add_sub_cancel, ← ht, List.take_left]
+
+theorem validFrom_le {L R : List α} : ∀ (es : List (Edit α)) (i j : Nat),
+    EditScript.ValidFrom L R es i j → i ≤ L.length ∧ j ≤ R.length
+  | [], i, j, h => by simp only [EditScript.ValidFrom] at h; omega
+  | e :: es, i, j, h => by
+    simp only [EditScript.ValidFrom] at h
+    split at h
+    · have := validFrom_le es _ _ h.2.2; omega
+    · have := validFrom_le es _ _ h.2.2.2; omega
+    · have := validFrom_le es _ _ h.2.2; omega
+    · have := validFrom_le es _ _ h.2.2; omega
+
+
+/-! ## consumed / produced -/
+
+theorem consumed_append (a b : List (Edit α)) : consumed (a ++ b) = consumed a ++ consumed b := by
+  simp [consumed]
+theorem produced_append (a b : List (Edit α)) : produced (a ++ b) = produced a ++ produced b := by
+  simp [produced]
+theorem consumed_single (e : Edit α) : consumed [e] = consumedOf e := by simp [consumed]
+theorem produced_single (e : Edit α) : produced [e] = producedOf e := by simp [produced]
+theorem consumed_nil : consumed ([] : List (Edit α)) = [] := rfl
+theorem produced_nil : produced ([] : List (Edit α)) = [] := rfl
+
+/-! ## equal gaps, alignment, patch -/
+
+/-- `L[a, c) = R[b, d)`, same length -/
+def GapEq (L R : List α) (a b c d : Nat) : Prop :=
+  a ≤ c ∧ b ≤ d ∧ c - a = d - b ∧ span L a c = span R b d
+
+theorem GapEq.refl (L R : List α) (a b : Nat) : GapEq L R a b a b :=
+  ⟨Nat.le_refl _, Nat.le_refl _, by omega, by rw [span_self, span_self]⟩
+
+theorem GapEq.trans {L R : List α} {a b c d e f : Nat} (ha : 1 ≤ a) (hb : 1 ≤ b)
+    (h1 : GapEq L R a b c d) (h2 : GapEq L R c d e f) : GapEq L R a b e f := by
+  obtain ⟨p1, p2, p3, p4⟩ := h1
+  obtain ⟨q1, q2, q3, q4⟩ := h2
+  refine ⟨by omega, by omega, by omega, ?_⟩
+  rw [← span_append L ha p1 q1, ← span_append R hb p2 q2, p4, q4]
+
+/-- the gap before every chunk is the same text in `L` and `R`, and so is the tail after the
+last chunk; `(lp, rp)` is the position after the previous chunk -/
+def Aligned (L R : List α) : Nat → Nat → List (Chunk α) → Prop
+  | lp, rp, [] => L.drop (lp - 1) = R.drop (rp - 1)
+  | lp, rp, c :: cs => GapEq L R lp rp c.lstart c.rstart ∧ Aligned L R c.lend c.rend cs
+
+theorem patchFrom_of_aligned {L R : List α} : ∀ (cs : List (Chunk α)) (lp rp : Nat),
+    1 ≤ lp → 1 ≤ rp → AllOK cs L R → Aligned L R lp rp cs → patchFrom L lp cs = R.drop (rp - 1)
+  | [], lp, rp, _, _, _, h => h
+  | c :: cs, lp, rp, h1, h2, hok, h => by
+    obtain ⟨⟨g1, g2, g3, g4⟩, hal⟩ := h
+    have hc := hok c (List.mem_cons_self ..)
+    have ih := patchFrom_of_aligned cs c.lend c.rend (by have := hc.l1; have := hc.l2; omega)
+      (by have := hc.r1; have := hc.r2; omega) (fun d hd => hok d (List.mem_cons_of_mem _ hd)) hal
+    simp only [patchFrom]
+    rw [ih, g4, hc.prod, List.append_assoc, span_drop R hc.r1 hc.r2, span_drop R h2 g2]
+
+theorem patch_of_aligned {L R : List α} {cs : List (Chunk α)} (hok : AllOK cs L R)
+    (h : Aligned L R 1 1 cs) : patch L cs = R :=
+  patchFrom_of_aligned cs 1 1 (Nat.le_refl _) (Nat.le_refl _) hok h
+
+
+theorem gapEq_end {L R : List α} {a b : Nat} (h : GapEq L R a b (L.length + 1) (R.length + 1)) :
+    L.drop (a - 1) = R.drop (b - 1) := by
+  have := h.2.2.2
+  rwa [span_to_end, span_to_end] at this
+
+/-! ## New -/
+
+/-- the last two lines of `New` -/
+def finish (r : List (Chunk α) × Chunk α) : List (Chunk α) :=
+  if r.2.lend = r.2.lstart ∧ r.2.rend = r.2.rstart then r.1 else r.1 ++ [r.2]
+
+theorem newChunks_eq (es : List (Edit α)) :
+    newChunks es = finish (newLoop es [] ⟨[], 1, 1, 1, 1⟩ 1 1) := rfl
+
+theorem startChunk_prefix (done : List (Chunk α)) (cur : Chunk α) (lcur rcur : Nat) :
+    startChunk done cur lcur rcur =
+      (done ++ (startChunk [] cur lcur rcur).1, (startChunk [] cur lcur rcur).2) := by
+  unfold startChunk
+  split
+  · split <;> simp
+  · simp
+
+theorem newLoop_prefix : ∀ (es : List (Edit α)) (done : List (Chunk α)) (cur : Chunk α)
+    (lcur rcur : Nat), newLoop es done cur lcur rcur =
+      (done ++ (newLoop es [] cur lcur rcur).1, (newLoop es [] cur lcur rcur).2)
+  | [], done, cur, lcur, rcur => by simp [newLoop]
+  | e :: es, done, cur, lcur, rcur => by
+    rw [newLoop, newLoop, startChunk_prefix done]
+    generalize (startChunk [] cur lcur rcur).1 = d
+    generalize (startChunk [] cur lcur rcur).2 = c
+    cases e.op <;> simp only <;> rw [newLoop_prefix es (done ++ d), newLoop_prefix es d] <;>
+      simp
+
+theorem finish_prefix (d : List (Chunk α)) (r : List (Chunk α) × Chunk α) :
+    finish (d ++ r.1, r.2) = d ++ finish r := by
+  unfold finish; split <;> simp
+
+/-- state of the loop of `New`: `(pl, pr)` is the end of the previous chunk -/
+structure Inv (L R : List α) (pl pr : Nat) (cur : Chunk α) (lcur rcur : Nat) : Prop where
+  pl1 : 1 ≤ pl
+  pr1 : 1 ≤ pr
+  ok : ChunkOK cur L R
+  gap : GapEq L R pl pr cur.lstart cur.rstart
+  emitted : GapEq L R cur.lend cur.rend lcur rcur
+  bl : lcur ≤ L.length + 1
+  br : rcur ≤ R.length + 1
+  noemit : ∀ e ∈ cur.edits, e.op ≠ .emit
+
+/-- what the loop of `New` delivers from a state on -/
+structure Res (L R : List α) (pl pr ls rs : Nat) (out : List (Chunk α)) : Prop where
+  ok : AllOK out L R
+  asc : Ascending out
+  na : NonAdjacent out
+  al : Aligned L R pl pr out
+  noemit : ∀ c ∈ out, ∀ e ∈ c.edits, e.op ≠ .emit
+  nonempty : ∀ c ∈ out, c.lstart < c.lend ∨ c.rstart < c.rend
+  head : ∀ h ∈ out.head?, ls ≤ h.lstart ∧ rs ≤ h.rstart
+
+theorem startChunk_spec {L R : List α} {pl pr : Nat} {cur : Chunk α} {lcur rcur : Nat}
+    (h : Inv L R pl pr cur lcur rcur) :
+    ∃ d cur' pl' pr', startChunk [] cur lcur rcur = (d, cur') ∧ Inv L R pl' pr' cur' lcur rcur ∧
+      cur'.lend = lcur ∧ cur'.rend = rcur ∧
+      ((d = [] ∧ pl' = pl ∧ pr' = pr ∧ cur.lstart ≤ cur'.lstart ∧ cur.rstart ≤ cur'.rstart) ∨
+       (d = [cur] ∧ pl' = cur.lend ∧ pr' = cur.rend ∧
+         (cur.lstart < cur.lend ∨ cur.rstart < cur.rend) ∧
+         cur.lend < cur'.lstart ∧ cur.rend < cur'.rstart)) := by
+  obtain ⟨e1, e2, e3, e4⟩ := h.emitted
+  have hok := h.ok
+  have o1 := hok.l1; have o2 := hok.l2; have o4 := hok.r1; have o5 := hok.r2
+  unfold startChunk
+  by_cases hg : lcur > cur.lend ∨ rcur > cur.rend
+  · rw [if_pos hg]
+    by_cases hn : cur.lend ≠ cur.lstart ∨ cur.rend ≠ cur.rstart
+    · rw [if_pos hn]
+      refine ⟨_, _, cur.lend, cur.rend, rfl, ?_, rfl, rfl, Or.inr ⟨rfl, rfl, rfl, by omega, ?_, ?_⟩⟩
+      · exact ⟨by omega, by omega,
+          ⟨by show 1 ≤ lcur; omega, Nat.le_refl _, h.bl, by show 1 ≤ rcur; omega, Nat.le_refl _, h.br,
+            by show consumed [] = span L lcur lcur; rw [span_self]; rfl,
+            by show produced [] = span R rcur rcur; rw [span_self]; rfl⟩,
+          h.emitted, GapEq.refl .., h.bl, h.br, by intro e he; cases he⟩
+      · show cur.lend < lcur; omega
+      · show cur.rend < rcur; omega
+    · rw [if_neg hn]
+      have hn1 : cur.lend = cur.lstart := by omega
+      have hn2 : cur.rend = cur.rstart := by omega
+      refine ⟨_, _, pl, pr, rfl, ?_, rfl, rfl, Or.inl ⟨rfl, rfl, rfl, ?_, ?_⟩⟩
+      · refine ⟨h.pl1, h.pr1,
+          ⟨by show 1 ≤ lcur; omega, Nat.le_refl _, h.bl, by show 1 ≤ rcur; omega, Nat.le_refl _, h.br,
+            ?_, ?_⟩, ?_, GapEq.refl .., h.bl, h.br, h.noemit⟩
+        · show consumed cur.edits = span L lcur lcur
+          rw [span_self, hok.cons, hn1, span_self]
+        · show produced cur.edits = span R rcur rcur
+          rw [span_self, hok.prod, hn2, span_self]
+        · show GapEq L R pl pr lcur rcur
+          have := h.emitted
+          rw [hn1, hn2] at this
+          exact GapEq.trans h.pl1 h.pr1 h.gap this
+      · show cur.lstart ≤ lcur; omega
+      · show cur.rstart ≤ rcur; omega
+  · rw [if_neg hg]
+    exact ⟨_, _, pl, pr, rfl, h, by omega, by omega, Or.inl ⟨rfl, rfl, rfl, Nat.le_refl _, Nat.le_refl _⟩⟩
+
+
+theorem inv_push {L R : List α} {pl pr : Nat} {cur c2 : Chunk α} {lcur rcur : Nat} (e : Edit α)
+    (h : Inv L R pl pr cur lcur rcur) (hl : cur.lend = lcur) (hr : cur.rend = rcur)
+    (hop : e.op ≠ .emit)
+    (hx : span L lcur (lcur + (consumedOf e).length) = consumedOf e)
+    (hy : span R rcur (rcur + (producedOf e).length) = producedOf e)
+    (bl : lcur + (consumedOf e).length ≤ L.length + 1)
+    (br : rcur + (producedOf e).length ≤ R.length + 1)
+    (c1 : c2.edits = cur.edits ++ [e]) (c3 : c2.lstart = cur.lstart) (c4 : c2.rstart = cur.rstart)
+    (c5 : c2.lend = cur.lend + (consumedOf e).length)
+    (c6 : c2.rend = cur.rend + (producedOf e).length) :
+    Inv L R pl pr c2 (lcur + (consumedOf e).length) (rcur + (producedOf e).length) := by
+  have hok := h.ok
+  have o1 := hok.l1; have o2 := hok.l2; have o4 := hok.r1; have o5 := hok.r2
+  refine ⟨h.pl1, h.pr1, ⟨by omega, by omega, by omega, by omega, by omega, by omega, ?_, ?_⟩, ?_, ?_,
+    bl, br, ?_⟩
+  · rw [c1, consumed_append, consumed_single, hok.cons, c3, c5,
+      ← span_append L o1 o2 (Nat.le_add_right _ _), hl, hx]
+  · rw [c1, produced_append, produced_single, hok.prod, c4, c6,
+      ← span_append R o4 o5 (Nat.le_add_right _ _), hr, hy]
+  · rw [c3, c4]; exact h.gap
+  · rw [c5, c6, hl, hr]; exact GapEq.refl ..
+  · intro e' he'
+    rw [c1] at he'
+    rcases List.mem_append.1 he' with h1 | h1
+    · exact h.noemit e' h1
+    · rw [List.mem_singleton.1 h1]; exact hop
+
+theorem res_cons {L R : List α} {pl pr : Nat} {cur : Chunk α} {lcur rcur : Nat}
+    (h : Inv L R pl pr cur lcur rcur) {ls rs : Nat} {out : List (Chunk α)}
+    (hne : cur.lstart < cur.lend ∨ cur.rstart < cur.rend)
+    (hl : cur.lend < ls) (hr : cur.rend < rs)
+    (hres : Res L R cur.lend cur.rend ls rs out) :
+    Res L R pl pr cur.lstart cur.rstart (cur :: out) := by
+  refine ⟨?_, ?_, ?_, ⟨h.gap, hres.al⟩, ?_, ?_, ?_⟩
+  · intro c hc
+    rcases List.mem_cons.1 hc with rfl | hc
+    · exact h.ok
+    · exact hres.ok c hc
+  · cases out with
+    | nil => trivial
+    | cons d out =>
+      have := hres.head d rfl
+      exact ⟨by omega, by omega, hres.asc⟩
+  · cases out with
+    | nil => trivial
+    | cons d out =>
+      have := hres.head d rfl
+      exact ⟨by omega, hres.na⟩
+  · intro c hc
+    rcases List.mem_cons.1 hc with rfl | hc
+    · exact h.noemit
+    · exact hres.noemit c hc
+  · intro c hc
+    rcases List.mem_cons.1 hc with rfl | hc
+    · exact hne
+    · exact hres.nonempty c hc
+  · intro x hx
+    simp only [List.head?_cons, Option.mem_def, Option.some.injEq] at hx
+    subst hx
+    exact ⟨Nat.le_refl _, Nat.le_refl _⟩
+
+theorem Res.mono {L R : List α} {pl pr ls rs ls' rs' : Nat} {out : List (Chunk α)}
+    (h : Res L R pl pr ls rs out) (h1 : ls' ≤ ls) (h2 : rs' ≤ rs) : Res L R pl pr ls' rs' out :=
+  ⟨h.ok, h.asc, h.na, h.al, h.noemit, h.nonempty, fun x hx => by have := h.head x hx; omega⟩
+
+theorem newLoop_res {L R : List α} : ∀ (es : List (Edit α)) (cur : Chunk α) (lcur rcur pl pr : Nat),
+    Inv L R pl pr cur lcur rcur → EditScript.ValidFrom L R es (lcur - 1) (rcur - 1) →
+    Res L R pl pr cur.lstart cur.rstart (finish (newLoop es [] cur lcur rcur))
+  | [], cur, lcur, rcur, pl, pr, h, hv => by
+    simp only [EditScript.ValidFrom] at hv
+    have hok := h.ok
+    have o1 := hok.l1; have o2 := hok.l2; have o4 := hok.r1; have o5 := hok.r2
+    obtain ⟨e1, e2, e3, e4⟩ := h.emitted
+    have hl : lcur = L.length + 1 := by omega
+    have hr : rcur = R.length + 1 := by omega
+    have hem := h.emitted
+    rw [hl, hr] at hem
+    have hnl : newLoop [] [] cur lcur rcur = ([], cur) := rfl
+    rw [hnl]
+    show Res L R pl pr cur.lstart cur.rstart
+      (if cur.lend = cur.lstart ∧ cur.rend = cur.rstart then [] else [] ++ [cur])
+    by_cases hn : cur.lend = cur.lstart ∧ cur.rend = cur.rstart
+    · rw [if_pos hn]
+      have hg := h.gap
+      rw [← hn.1, ← hn.2] at hg
+      refine ⟨(by intro c hc; cases hc), trivial, trivial,
+        gapEq_end (GapEq.trans h.pl1 h.pr1 hg hem), (by intro c hc; cases hc),
+        (by intro c hc; cases hc), (by intro x hx; cases hx)⟩
+    · rw [if_neg hn]
+      refine ⟨?_, trivial, trivial, ⟨h.gap, gapEq_end hem⟩, ?_, ?_, ?_⟩
+      · intro c hc
+        have hc : c = cur := by simpa using hc
+        rw [hc]; exact hok
+      · intro c hc
+        have hc : c = cur := by simpa using hc
+        rw [hc]; exact h.noemit
+      · intro c hc
+        have hc : c = cur := by simpa using hc
+        rw [hc]; omega
+      · intro x hx
+        simp only [List.nil_append, List.head?_cons, Option.mem_def, Option.some.injEq] at hx
+        subst hx; exact ⟨Nat.le_refl _, Nat.le_refl _⟩
+  | e :: es, cur, lcur, rcur, pl, pr, h, hv => by
+    obtain ⟨d, cur', pl', pr', hsc, hinv, hl, hr, hcases⟩ := startChunk_spec h
+    have hok := h.ok
+    have o1 := hok.l1; have o2 := hok.l2; have o4 := hok.r1; have o5 := hok.r2
+    have hlc : 1 ≤ lcur := by have := h.emitted.1; omega
+    have hrc : 1 ≤ rcur := by have := h.emitted.2.1; omega
+    -- finishing argument, common to the four kinds of edit
+    have key : ∀ (c2 : Chunk α) (l2 r2 : Nat), c2.lstart = cur'.lstart → c2.rstart = cur'.rstart →
+        Inv L R pl' pr' c2 l2 r2 → EditScript.ValidFrom L R es (l2 - 1) (r2 - 1) →
+        Res L R pl pr cur.lstart cur.rstart (finish (newLoop es d c2 l2 r2)) := by
+      intro c2 l2 r2 hs1 hs2 hinv2 hv2
+      have ih := newLoop_res es c2 l2 r2 pl' pr' hinv2 hv2
+      rw [newLoop_prefix, finish_prefix]
+      rcases hcases with ⟨rfl, rfl, rfl, q1, q2⟩ | ⟨rfl, rfl, rfl, q0, q1, q2⟩
+      · exact ih.mono (by omega) (by omega)
+      · exact res_cons h q0 (by omega) (by omega) ih
+    rw [newLoop, hsc]
+    simp only [EditScript.ValidFrom] at hv
+    cases hop : e.op <;> simp only [hop] at hv ⊢
+    · -- drop
+      obtain ⟨hx, hy, hv⟩ := hv
+      have hb := validFrom_le _ _ _ hv
+      have hx' := span_of_isSpan hx
+      have e1 : lcur - 1 + 1 = lcur := by omega
+      rw [e1] at hx'
+      have hc : consumedOf e = e.X := by simp [consumedOf, hop]
+      have hp : producedOf e = [] := by simp [producedOf, hop]
+      have := inv_push (c2 := { cur' with lend := cur'.lend + e.X.length, edits := cur'.edits ++ [e] })
+        e hinv hl hr (by rw [hop]; exact fun h => nomatch h) (by rw [hc]; exact hx')
+        (by rw [hp]; exact span_self ..) (by rw [hc]; omega) (by rw [hp]; exact h.br)
+        rfl rfl rfl (by rw [hc]) (by rw [hp]; rfl)
+      rw [hc, hp] at this
+      exact key _ _ _ rfl rfl this (by
+        have e2 : lcur + e.X.length - 1 = lcur - 1 + e.X.length := by omega
+        rw [e2]; exact hv)
+    · -- emit
+      obtain ⟨hx, hy, hy0, hv⟩ := hv
+      have hb := validFrom_le _ _ _ hv
+      have hx' := span_of_isSpan hx
+      have hy' := span_of_isSpan hy
+      have e1 : lcur - 1 + 1 = lcur := by omega
+      have e1' : rcur - 1 + 1 = rcur := by omega
+      rw [e1] at hx'; rw [e1'] at hy'
+      refine key cur' _ _ rfl rfl ⟨hinv.pl1, hinv.pr1, hinv.ok, hinv.gap, ?_, by omega, by omega,
+        hinv.noemit⟩ (by
+        have e2 : lcur + e.X.length - 1 = lcur - 1 + e.X.length := by omega
+        have e3 : rcur + e.X.length - 1 = rcur - 1 + e.X.length := by omega
+        rw [e2, e3]; exact hv)
+      rw [hl, hr]
+      exact ⟨by omega, by omega, by omega, by rw [hx', hy']⟩
+    · -- copy
+      obtain ⟨hx, hy, hv⟩ := hv
+      have hb := validFrom_le _ _ _ hv
+      have hy' := span_of_isSpan hy
+      have e1 : rcur - 1 + 1 = rcur := by omega
+      rw [e1] at hy'
+      have hc : consumedOf e = [] := by simp [consumedOf, hop]
+      have hp : producedOf e = e.Y := by simp [producedOf, hop]
+      have := inv_push (c2 := { cur' with rend := cur'.rend + e.Y.length, edits := cur'.edits ++ [e] })
+        e hinv hl hr (by rw [hop]; exact fun h => nomatch h) (by rw [hc]; exact span_self ..)
+        (by rw [hp]; exact hy') (by rw [hc]; exact h.bl) (by rw [hp]; omega)
+        rfl rfl rfl (by rw [hc]; rfl) (by rw [hp])
+      rw [hc, hp] at this
+      exact key _ _ _ rfl rfl this (by
+        have e2 : rcur + e.Y.length - 1 = rcur - 1 + e.Y.length := by omega
+        rw [e2]; exact hv)
+    · -- replace
+      obtain ⟨hx, hy, hv⟩ := hv
+      have hb := validFrom_le _ _ _ hv
+      have hx' := span_of_isSpan hx
+      have hy' := span_of_isSpan hy
+      have e1 : lcur - 1 + 1 = lcur := by omega
+      have e1' : rcur - 1 + 1 = rcur := by omega
+      rw [e1] at hx'; rw [e1'] at hy'
+      have hc : consumedOf e = e.X := by simp [consumedOf, hop]
+      have hp : producedOf e = e.Y := by simp [producedOf, hop]
+      have := inv_push
+        (c2 := ⟨cur'.edits ++ [e], cur'.lstart, cur'.lend + e.X.length, cur'.rstart, cur'.rend + e.Y.length⟩)
+        e hinv hl hr (by rw [hop]; exact fun h => nomatch h) (by rw [hc]; exact hx')
+        (by rw [hp]; exact hy') (by rw [hc]; omega) (by rw [hp]; omega)
+        rfl rfl rfl (by rw [hc]) (by rw [hp])
+      rw [hc, hp] at this
+      exact key _ _ _ rfl rfl this (by
+        have e2 : lcur + e.X.length - 1 = lcur - 1 + e.X.length := by omega
+        have e3 : rcur + e.Y.length - 1 = rcur - 1 + e.Y.length := by omega
+        rw [e2, e3]; exact hv)
+
+
+theorem edits_ne_nil_of_range {L R : List α} {c : Chunk α} (hok : ChunkOK c L R)
+    (h : c.lstart < c.lend ∨ c.rstart < c.rend) : c.edits ≠ [] := by
+  intro he
+  have h1 := congrArg List.length hok.cons
+  have h2 := congrArg List.length hok.prod
+  rw [he, consumed_nil, length_span L hok.l1 hok.l3] at h1
+  rw [he, produced_nil, length_span R hok.r1 hok.r3] at h2
+  simp only [List.length_nil] at h1 h2
+  omega
+
+theorem newChunks_res {L R : List α} (es : List (Edit α)) (h : EditScript.Valid es L R) :
+    Res L R 1 1 1 1 (newChunks es) := by
+  rcases h with ⟨rfl, rfl⟩ | ⟨_, hv⟩
+  · show Res L L 1 1 1 1 []
+    exact ⟨(by intro c hc; cases hc), trivial, trivial, rfl, (by intro c hc; cases hc),
+      (by intro c hc; cases hc), (by intro x hx; cases hx)⟩
+  · rw [newChunks_eq]
+    refine newLoop_res es ⟨[], 1, 1, 1, 1⟩ 1 1 1 1 ?_ hv
+    exact ⟨Nat.le_refl _, Nat.le_refl _,
+      ⟨Nat.le_refl _, Nat.le_refl _, by show 1 ≤ L.length + 1; omega, Nat.le_refl _, Nat.le_refl _,
+        by show 1 ≤ R.length + 1; omega, by show consumed [] = span L 1 1; rw [span_self]; rfl,
+        by show produced [] = span R 1 1; rw [span_self]; rfl⟩,
+      GapEq.refl .., GapEq.refl .., by omega, by omega, by intro e he; cases he⟩
+
 end MdsVerif.Proofs.Mdiff
